@@ -13,7 +13,8 @@ REQUIRED = ['C17.kdt_len_eq', 'C17.kdt_x_distinct_inrange', 'C17.kdt_y_inrange',
             'C17.kdt_y_injective', 'C17.kdt_pairs_one_to_one', 'C17.kdt_row_marked_at_most_once', 'C17.kdt_matched_iff',
             'C17.kdt_matched_iff_wf',
             'C17.kdt_marks_greedy', 'C17.kdt_closest_claimant', 'C17.kdt_first_neighbour_matched',
-            'C17.kdt_sortedpos_not_injective', 'C17.kdt_among_K_nearest']
+            'C17.kdt_sortedpos_not_injective', 'C17.kdt_among_K_nearest',
+            'C17.kdt_K1_spec', 'C17.kdt_K1_nearest_within_bound', 'C17.kdt_nearest_clause_one_sided']
 TRUSTED = ['scipy.spatial.cKDTree(y).query(x, k=K, distance_upper_bound=b) is an oracle: its result (D, inds) is obtained from the '
            'real library on the same inputs and handed to the model exactly (distances as exact rationals, inf as a sentinel)',
            'that the entries of a query row are the K nearest points of y is scipy\'s contract; the instance check recomputes it by brute force',
@@ -266,6 +267,9 @@ class Random(Stream):
             {'x': [[0.0], [0.1], [0.2]], 'y': [[1.0], [-1.0]], 'K': 1, 'bound': None, 'flat': 0, 'family': 'corpus'},
             {'x': [[0.0], [3.0], [1.0]], 'y': [[1.0], [0.0], [3.5]], 'K': 1, 'bound': None, 'flat': 0, 'family': 'corpus'},
             {'x': [[0.0, 1.0]], 'y': [[1.0, 0.0]], 'K': 1, 'bound': None, 'flat': 0, 'family': 'corpus'},
+            # K = 1 with a FINITE bound; the table of theorem C17.kdt_nearest_clause_one_sided (x1 is closer to y0 than its partner x0)
+            {'x': [[0.0], [9.0], [11.0]], 'y': [[5.0], [11.4]], 'K': 1, 'bound': 6.0, 'flat': 0, 'family': 'corpus'},
+            {'x': [[0.0], [9.0], [11.0]], 'y': [[5.0], [11.4]], 'K': 1, 'bound': 4.5, 'flat': 1, 'family': 'corpus'},
             # the repo's own test: two sorted linspace vectors, K = 2
             {'x': [[v] for v in np.linspace(0, 1, 10)], 'y': [[v] for v in np.linspace(0, 1, 10)], 'K': 2, 'bound': None,
              'flat': 1, 'family': 'corpus'},
